@@ -5,9 +5,11 @@ Generic theorems about binding ids and binding caveats in `verifyWith`/`verifyFl
 (Token/Macaroon.lean); `bound_passes_descendants` for every `LawfulCrypto B`.  The converse
 (`bound_fails_elsewhere`: a satisfied binding identifies a prefix of the presented token, so
 ancestors, siblings and unrelated tokens fail) needs the digest to be injective and is proved for
-the symbolic instance in Props/Symbolic.lean.  Tie: family `bind`.
+the symbolic instance in Props/Symbolic.lean (`bound_fails_elsewhere`, `bound_fails_ancestor`, and, through
+the verifier, `bound_only_with_descendant` / `bound_accepted_only_with_descendant`).  Tie: family `bind`.
 -/
 import Macaroon.Lemmas.Token
+import Macaroon.Crypto.Symbolic
 
 namespace Macaroon.Props.C06
 open Macaroon Macaroon.Crypto Macaroon.Lemmas
@@ -114,6 +116,31 @@ where
         have := last_mem t' c' cs r h
         simp only [tailsAfter, hm]
         exact List.mem_cons_of_mem _ this
+
+/-! ### non-vacuity (symbolic instance) -/
+
+section examples
+open Symbolic Symbolic.Term
+
+def b0 : Mac Term := mint (atom 0) (lit [1]) [] (atom 1) false
+def btk : Term := sealTicket (atom 5) (atom 12) (atom 11) [.isUser 3]
+def b1 : Mac Term := (add b0 [.new3p [9] btk (atom 11) (atom 13)]).1
+def b2 : Mac Term := (add b1 [.plain (.action 1)]).1
+def bd : Mac Term := mint (atom 11) btk [9] (atom 14) true
+/-- bound to `b1`; bound to `b1` AND to `b2` -/
+def bd1 : Mac Term := encodeState (bindTo bd b1).1
+def bd12 : Mac Term := encodeState (bindTo (bindTo bd b1).1 b2).1
+
+example : verify (atom 0) b2 [bd1] (fun _ => []) = .ok [.action 1] := by rfl
+example : verify (atom 0) b1 [bd12] (fun _ => []) = .error .dischargeFailed := by rfl
+example : verify (atom 0) b2 [bd12] (fun _ => []) = .ok [.action 1] := by rfl
+example := binding_ids (atom 0) b2 [bd1] (fun _ => []) _ (by rfl)
+example := all_bindings_required (atom 11) bd12 (offeredIds (atom 0) b2) true [] (by rfl)
+example := binding_at_top_level_rejected (atom 11) bd1 [] (fun _ => []) (bindId b1.tail) (by decide)
+example : verify (atom 11) bd1 [] (fun _ => []) = .error .boundElsewhere := by rfl
+example := bound_passes_descendants (atom 0) b1 b2 [.action 1] rfl (by rfl) (by rfl) ⟨_, by rfl⟩
+
+end examples
 
 end Macaroon.Props.C06
 
